@@ -1,2 +1,5 @@
 //! Independent reference models (DESIGN.md §4).  Nothing in here calls zerv.
+pub mod calendar;
+pub mod pep440;
 pub mod sanitize;
+pub mod semver;
